@@ -10,6 +10,7 @@ import (
 	"go/types"
 	"strconv"
 	"strings"
+	"unicode"
 
 	"github.com/cespare/xxhash/v2"
 )
@@ -148,6 +149,13 @@ func init() {
 			return nil, false
 		},
 	}
+	for name, f := range map[string]func(rune) bool{
+		"unicode.IsLetter": unicode.IsLetter, "unicode.IsDigit": unicode.IsDigit, "unicode.IsSpace": unicode.IsSpace,
+		"unicode.IsUpper": unicode.IsUpper, "unicode.IsLower": unicode.IsLower, "unicode.IsNumber": unicode.IsNumber,
+		"unicode.IsPunct": unicode.IsPunct, "unicode.IsControl": unicode.IsControl, "unicode.IsPrint": unicode.IsPrint,
+	} {
+		nativeIntrinsics[name] = unicodePred(name, f)
+	}
 	for _, w := range []string{"32", "64"} {
 		for _, u := range []string{"Int", "Uint"} {
 			registerAtomics(u + w)
@@ -155,6 +163,34 @@ func init() {
 	}
 	registerAtomics("Uintptr")
 	registerSync()
+}
+
+// unicodePred summarises a unicode.IsX predicate: exact for concrete runes and
+// for symbolic ASCII runes (a 128-entry table as a decision tree); for symbolic
+// runes >= 0x80 the result is an unconstrained boolean - an over-approximation
+// (both outcomes are explored; a counterexample that depends on an impossible
+// outcome does not replay natively and is not reported).
+func unicodePred(name string, f func(rune) bool) native {
+	return func(fr *frame, a []value) (value, bool) {
+		r := fr.i.run
+		switch x := a[0].(type) {
+		case int32:
+			return f(x), true
+		case sym:
+			c := r.ctx
+			ascii := c.And(c.Bin(OpSLe, c.Const(32, 0), x.t), c.Bin(OpSLt, x.t, c.Const(32, 0x80)))
+			if r.decide(ascii, name+"-ascii") {
+				tab := make([]value, 128)
+				for i := range tab {
+					tab[i] = f(rune(i))
+				}
+				return r.indexReadChecked(tab, x), true
+			}
+			r.stubs[name+" (non-ASCII symbolic rune: unconstrained result)"]++
+			return sym{r.freshVar(name, 0), types.Bool}, true
+		}
+		return nil, false
+	}
 }
 
 func validUTF8(s string) bool {
@@ -399,8 +435,10 @@ func stringify(fr *frame, arg value, verb byte) value {
 			}
 			return "false"
 		}
-		cv := fr.i.run.concretize(v, "fmt-int")
-		return stringify(fr, iface{t: itf.t, v: cv}, verb)
+		// formatting a symbolic integer: rendered as '?' instead of forking over every
+		// value (message text only; listed among the replaced functions)
+		fr.i.run.stubs["fmt: symbolic integer rendered as '?'"]++
+		return "?"
 	case int, int8, int16, int32, int64:
 		n := asInt64(v)
 		switch verb {
